@@ -14,13 +14,20 @@ pub const MINI: usize = 64;
 pub const DIRENT: usize = 128;
 
 pub fn put32(a: &mut [u8], off: usize, v: u32) {
-    a[off..off + 4].copy_from_slice(&v.to_le_bytes());
+    let b = v.to_le_bytes();
+    a[off] = b[0];
+    a[off + 1] = b[1];
+    a[off + 2] = b[2];
+    a[off + 3] = b[3];
 }
 pub fn put16(a: &mut [u8], off: usize, v: u16) {
-    a[off..off + 2].copy_from_slice(&v.to_le_bytes());
+    let b = v.to_le_bytes();
+    a[off] = b[0];
+    a[off + 1] = b[1];
 }
 pub fn put64(a: &mut [u8], off: usize, v: u64) {
-    a[off..off + 8].copy_from_slice(&v.to_le_bytes());
+    put32(a, off, v as u32);
+    put32(a, off + 4, (v >> 32) as u32);
 }
 pub fn get32(a: &[u8], off: usize) -> u32 {
     u32::from_le_bytes([a[off], a[off + 1], a[off + 2], a[off + 3]])
